@@ -6,6 +6,7 @@ require (
 	github.com/kubewharf/kubebrain v0.0.0
 	github.com/kubewharf/kubebrain-client v0.2.1
 	github.com/tikv/client-go/v2 v2.0.1
+	github.com/tikv/pd/client v0.0.0-20220216070739-26c668271201
 	go.etcd.io/etcd/api/v3 v3.5.2
 	google.golang.org/grpc v1.43.0
 	k8s.io/apimachinery v0.20.4
